@@ -76,7 +76,7 @@ fn run_count(prop: &str, thorough: bool) -> u64 {
     let (q, t) = match prop {
         "C01" => (30_000, 400_000),
         "C02" => (30_000, 400_000),
-        "C03" => (80_000, 1_000_000),
+        "C03" => (40_000, 600_000),
         "C04" => (150_000, 2_000_000),
         "C05" | "C06" | "C07" | "C08" => (25_000, 400_000),
         "C09" => (12_000, 200_000),
@@ -177,6 +177,10 @@ fn run_batch(prop: &str, thorough: bool, seed: u64, runs: u64, threads: usize, p
                         if r.stats.changing_steps >= 3 && r.rare >= 1 {
                             b.nontrivial.insert(script_hash(&s));
                         }
+                        for sig in &r.known_hits {
+                            let e = b.known.entry(sig.clone()).or_insert((0, "panic on use of an OccupiedEntry handle after remove(&mut self); the run continued".to_string()));
+                            e.0 += 1;
+                        }
                         match &r.outcome {
                             Outcome::Ok => {}
                             Outcome::Foreign(sg) => {
@@ -275,8 +279,10 @@ fn cmd_run(a: &Args) -> i32 {
     let b = run_batch(&prop, thorough, seed, runs, threads, &profile, known.clone(), false);
     let wall = t0.elapsed().as_secs_f64();
     for (sig, (n, detail)) in &b.known {
-        let text = known::matches(&known, &prop, sig).map(|f| f.text.clone()).unwrap_or_default();
-        println!("KNOWN-FINDING: property={prop} sig={sig} hits={n} {text} [e.g. {}]", detail.chars().take(160).collect::<String>());
+        // the finding's own property (a finding of C20 can also be met while another property runs)
+        let f = known.iter().find(|f| f.sig == *sig);
+        let (fp, text) = f.map(|f| (f.property.clone(), f.text.clone())).unwrap_or((prop.clone(), String::new()));
+        println!("KNOWN-FINDING: property={fp} sig={sig} hits={n} {text} [e.g. {}]", detail.chars().take(160).collect::<String>());
     }
     let mut exit = 0;
     let mut viol_info = serde_json::Value::Null;
